@@ -123,6 +123,11 @@ func checkC02(c *Ctx) (int, error) {
 	}
 	nSynth := len(streams)
 	streams = append(streams, corpus(rng, "flate", nEnc, 300000)...)
+	pp := 1
+	if c.Tier == "thorough" {
+		pp = 6
+	}
+	streams = append(streams, boundaryStreams(rng, pp, false)...)
 	var cases []*RCase
 	for i, st := range streams {
 		for _, arch := range c.Levels {
@@ -136,7 +141,7 @@ func checkC02(c *Ctx) (int, error) {
 		}
 		c.ev.nontrivial(st.name + fmt.Sprint(descJSON(st)))
 	}
-	c.ev.Rule = fmt.Sprintf("%d synthesised streams (1-3 blocks; stored/fixed/dynamic; code shapes flat, skewed to 15 bits, random, frequency-based, single-code and empty distance trees; token classes incl. overlapping copies, distance 32768, length 258; header options) drawn by TLC from StreamGen, plus %d encoder-produced streams (compress/flate -2,0,1,6,9; fastgo -2,1,2; with Flush points), each at every acceleration level with rotating Read-size and source schedules; distinct by descriptor", nSynth, nEnc)
+	c.ev.Rule = fmt.Sprintf("%d synthesised streams (1-3 blocks; stored/fixed/dynamic; code shapes flat, skewed to 15 bits, random, frequency-based, single-code and empty distance trees; token classes incl. overlapping copies, distance 32768, length 258; header options) drawn by TLC from StreamGen, plus %d encoder-produced streams (compress/flate -2,0,1,6,9; fastgo -2,1,2; with Flush points) and streams whose blocks end at and around the 64 KiB / 96 KiB / 128 KiB output offsets where the inflater's window fills, each at every acceleration level with rotating Read-size and source schedules; distinct by descriptor", nSynth, nEnc)
 	for _, st := range streams[:minInt(3, len(streams))] {
 		c.ev.sample(descJSON(st))
 	}
@@ -293,6 +298,7 @@ func checkC18(c *Ctx) (int, error) {
 	}
 	enc := corpusOf(rng, "flate", nEnc, 300000, true) // the input must not depend on the level it is decoded at
 	streams = append(streams, enc...)
+	streams = append(streams, boundaryStreams(rng, 1, true)...)
 	for i := 0; i < nMut; i++ {
 		st := enc[rng.Intn(len(enc))]
 		switch rng.Intn(3) {
